@@ -1029,9 +1029,17 @@ wavlike_subchunk_parse (SF_PRIVATE *psf, int chunk, uint32_t chunk_length)
 			case ITRK_MARKER :
 					bytesread += psf_binheader_readf (psf, "4", &chunk_size) ;
 					chunk_size += (chunk_size & 1) ;
-					if (chunk_size >= SIGNED_SIZEOF (buffer) || bytesread + chunk_size > chunk_length)
+					/* The sum is done in 64 bits : a size close to 2^32 must not wrap and pass for a small one. */
+					if (chunk_size > 0x7fffffff || (sf_count_t) bytesread + chunk_size > chunk_length)
 					{	psf_log_printf (psf, "  *** %M : %u (too big)\n", chunk, chunk_size) ;
 						goto cleanup_subchunk_parse ;
+						} ;
+
+					if (chunk_size >= SIGNED_SIZEOF (buffer))
+					{	/* Too long for the buffer, but the items after it are fine. */
+						psf_log_printf (psf, "    %M : %u (too long, skipping)\n", chunk, chunk_size) ;
+						bytesread += psf_binheader_readf (psf, "j", chunk_size) ;
+						continue ;
 						} ;
 
 					bytesread += psf_binheader_readf (psf, "b", buffer, chunk_size) ;
